@@ -348,12 +348,28 @@ func c11Elem(c *Ctx, F *model.Fields, fn *ssa.Function, elem string, tok string,
 			R.Unknown("C11.R1", key, "(*Policy).sanitizeAttrs[elementName="+elem+"]: href discovery loop", "", "loop reading url.Parse(...).Host not found (anchor lost)")
 			return
 		}
-		mentionsHost := func(v ssa.Value) bool {
+		var mentionsHostD func(v ssa.Value, d int) bool
+		mentionsHostD = func(v ssa.Value, d int) bool {
 			if bo, ok := v.(*ssa.BinOp); ok {
 				return hostLoads[bo.X] || hostLoads[bo.Y]
 			}
+			// the result variable of an inlined `isExternal(href) bool`: false, or a test of the host
+			if ph, ok := v.(*ssa.Phi); ok && d < 3 {
+				n := 0
+				for _, e := range ph.Edges {
+					if model.IsFalse(e) {
+						continue
+					}
+					if !mentionsHostD(e, d+1) {
+						return false
+					}
+					n++
+				}
+				return n > 0
+			}
 			return false
 		}
+		mentionsHost := func(v ssa.Value) bool { return mentionsHostD(v, 0) }
 		hostGuarded := func(pred *ssa.BasicBlock) bool {
 			pb := pred
 			for pb != nil && len(pb.Preds) == 1 {
@@ -582,6 +598,9 @@ func c11Elem(c *Ctx, F *model.Fields, fn *ssa.Function, elem string, tok string,
 				}
 			}
 		}
+		// edges on which a constant-built accumulator takes a constant that carries the token (see "accumulated" below)
+		type cfgEdge struct{ from, to *ssa.BasicBlock }
+		accEdges := map[cfgEdge]bool{}
 		for al := range attrAllocs {
 			al := al
 			// allocation: zero value "" is clean
@@ -618,6 +637,64 @@ func c11Elem(c *Ctx, F *model.Fields, fn *ssa.Function, elem string, tok string,
 						}
 					}
 				}
+				if _, isC := st.Val.(*ssa.Const); kind == "" && !isC && constBuilt(st.Val) {
+					// a value assembled from constants in a local accumulator (`rel := ""; if a { rel = add(rel, "nofollow") }`,
+					// the helper inlined): the token joins where a concatenation or a merge brings in a constant carrying it
+					kind = "accumulated"
+					hasTok := func(k string) bool {
+						for _, f := range strings.Fields(k) {
+							if f == tok {
+								return true
+							}
+						}
+						return false
+					}
+					endsSpaceV := func(v ssa.Value) bool {
+						if bo, ok := v.(*ssa.BinOp); ok && bo.Op == token.ADD {
+							if k, ok := constString(bo.Y); ok && k != "" && strings.TrimRight(k, " \t\n") != k {
+								return true
+							}
+						}
+						if k, ok := constString(v); ok && (k == "" || strings.TrimRight(k, " \t\n") != k) {
+							return true
+						}
+						return false
+					}
+					seenN := map[ssa.Value]bool{}
+					var walk func(v ssa.Value)
+					walk = func(v ssa.Value) {
+						if seenN[v] {
+							return
+						}
+						seenN[v] = true
+						switch x := v.(type) {
+						case *ssa.Phi:
+							for i, e := range x.Edges {
+								if k, ok := constString(e); ok {
+									if hasTok(k) {
+										accEdges[cfgEdge{x.Block().Preds[i], x.Block()}] = true
+									}
+									continue
+								}
+								walk(e)
+							}
+						case *ssa.BinOp:
+							walk(x.X)
+							walk(x.Y)
+							if k, ok := constString(x.Y); ok && hasTok(k) {
+								glued := !(strings.TrimLeft(k, " \t\n") != k || endsSpaceV(x.X))
+								q.Hooks[x] = func(a uint32) []uint32 {
+									a = q.With(a, evT, true)
+									if glued {
+										a = q.With(a, evGlue, true)
+									}
+									return []uint32{a}
+								}
+							}
+						}
+					}
+					walk(st.Val)
+				}
 				isBlank := false
 				if k, ok := constString(st.Val); ok && k == "_blank" {
 					isBlank = true
@@ -636,7 +713,7 @@ func c11Elem(c *Ctx, F *model.Fields, fn *ssa.Function, elem string, tok string,
 					case "extend", "fresh":
 						a = q.With(a, evT, true)
 						a = q.With(a, evPend, true)
-					case "joined":
+					case "joined", "accumulated":
 						a = q.With(a, evPend, true)
 					case "glue":
 						if !q.Bit(a, evClean) {
@@ -754,6 +831,22 @@ func c11Elem(c *Ctx, F *model.Fields, fn *ssa.Function, elem string, tok string,
 				}
 			}
 			return f
+		}
+		if len(accEdges) > 0 {
+			inner2 := q.EdgeHook
+			q.EdgeHook = func(b *ssa.BasicBlock, k int) func(uint32) []uint32 {
+				f := inner2(b, k)
+				if !accEdges[cfgEdge{b, b.Succs[k]}] {
+					return f
+				}
+				return func(a uint32) []uint32 {
+					a = q.With(a, evT, true)
+					if f != nil {
+						return f(a)
+					}
+					return []uint32{a}
+				}
+			}
 		}
 		for _, b := range fn.Blocks {
 			if !region.Dominates(b) {
